@@ -427,6 +427,29 @@ PBT_PROPERTY(barrier_mixed) {
     }
 }
 
+//! SPIN BURSTS (vsched::Options::spin_burst): a waiter of the spin barrier runs B spin iterations back to back before it
+//! starts to give way, B drawn around powers of two and uniformly up to 10000 — reaches whatever a spin loop does after
+//! N rounds (back-off, yield fall-back, re-read), with a scheduling point exactly at the end of the burst
+PBT_PROPERTY(barrier_spin_burst) {
+    int n = (int)src.range(2, 3);
+    int G = (int)src.range(1, 3);
+    unsigned B;
+    if (src.boolean()) B = (1u << src.range(1, 16)) + (unsigned)src.range(0, 4) - 2;
+    else B = (unsigned)src.range(1, 10000);
+    BarPlan plan = BarPlan::uniform(n, G, false, true);
+    for (int g = 0; g < G; ++g)
+        for (int t = 0; t < n; ++t) plan.use_yield[(size_t)t][(size_t)g] = (char)src.chance(64);
+    int extra = (int)src.range(0, 1);
+    PBT_LOG("ThreadBarrierSpin n=" << n << " generations=" << G << " spin_burst=" << B << "\n");
+    pbt::label(B >= 4096 ? "burst>=4096" : B >= 256 ? "burst>=256" : "burst<256");
+    vsched::Options opt;
+    opt.spin_burst = B;
+    opt.max_steps = 400000;
+    vsched::Run run(src, opt);
+    barrier_execute<tlx::ThreadBarrierSpin>(n, G, plan, extra);
+    if (vsched::S().preemptions >= 1) pbt::nontrivial();
+}
+
 PBT_PROPERTY(barrier_mutex) { barrier_scenario<tlx::ThreadBarrierMutex>(src, "ThreadBarrierMutex"); }
 PBT_PROPERTY(barrier_spin) { barrier_scenario<tlx::ThreadBarrierSpin>(src, "ThreadBarrierSpin"); }
 
